@@ -355,6 +355,11 @@ def parse_cmd_pkt(line: bytes) -> tuple[bytes, list[bytes]]:
     return cmd, args[:-1].split(b"\0")
 
 
+# A pkt-line is at most 65520 bytes long including its four-byte length
+# prefix (git's LARGE_PACKET_MAX), so one frame carries at most 65516 bytes.
+MAX_PKT_LINE_PAYLOAD = 65520 - 4
+
+
 def pkt_line(data: bytes | None) -> bytes:
     """Wrap data in a pkt-line.
 
@@ -365,6 +370,12 @@ def pkt_line(data: bytes | None) -> bytes:
     """
     if data is None:
         return b"0000"
+    if len(data) > MAX_PKT_LINE_PAYLOAD:
+        # The length prefix is exactly four hex digits; anything longer would
+        # be emitted as a malformed frame that desynchronises the peer.
+        raise ValueError(
+            f"pkt-line payload too long: {len(data)} > {MAX_PKT_LINE_PAYLOAD}"
+        )
     return f"{len(data) + 4:04x}".encode("ascii") + data
 
 
